@@ -39,7 +39,7 @@ Grammar.  Module level of tseytin.py (closed world: anything else is refused): d
                    A use before the binding statement has run (directly or through a closure call) is refused.
   dispatch dict    `_operations[: T] = {<GateType>: <_process_*>, ...}`: all 19 gate types exactly once, values are
                    module-level functions; it may only be used as `_operations[<gtype>](<f>, <int>, <ints>)`.
-  closures         top-level `def`s of the outer function, annotated parameters (str / int / Lit / list[int] ...), no
+  closures         top-level `def`s of the outer function, annotated parameters (str / int / Lit / bool), no
                    defaults; they may mention: their parameters and locals, the closure state, parameters of the outer
                    function that are never rebound, the dispatch dict, closures defined earlier, themselves.
                    A local of a closure may not shadow any name of the outer function.
@@ -55,7 +55,7 @@ Grammar.  Module level of tseytin.py (closed world: anything else is refused): d
            | return [<expr>]          (outer function: exactly `return Cnf(<f>)`)
   <expr> ::= names, int / bool literals, - e, not e, e + e, e - e, e * e (ints; lengths are converted), l + l,
              comparisons (== != < <= > >= on ints, == != on labels / gate types / bools), `in` / `not in` (label in
-             label list, int in int list, label in <d>), and / or (pure operands), a if c else b,
+             label list, int in int list, label in <d>), and / or (short circuit kept), a if c else b,
              <d>[<label>]  (defaultdict read: defaultdict_getitem, runs the factory on a missing key),
              l[<int literal >= 0>] on an int list (py_index: Err PyIndexError), l[<int>] on a label list (list_index),
              l[::-1], reversed(l), len(l), list(l), range(n), list(range(n)),
@@ -67,8 +67,8 @@ Evaluation order is kept: every sub-expression that acts on the state or may rai
 order, and a READ of the closure state is bound to a temporary at the point where Python evaluates it.
 
 Aliasing discipline: only a list that nobody else holds (a display / comprehension / list(...) bound to a local) may
-be appended to; it stops being appendable once it has been stored into the clause list, passed to a template, or
-bound to a second name.  Parameters are never mutated.
+be appended to; it stops being appendable once a list-valued expression that mentions it has been stored into the
+clause list, passed to a template, or bound to a name.  Closures take no list parameters.  Parameters are never mutated.
 """
 import ast
 
@@ -413,16 +413,29 @@ class Translator:
                 return V(f'({self.as_int(l, node.left)} {ops[type(node.op)]} {self.as_int(r, node.right)})', 'int')
             fail(node, 'binary operator outside grammar')
         if isinstance(node, ast.BoolOp):
-            parts = []
+            # short circuit: a later operand that reads the state, acts on it or may raise is evaluated only when
+            # the operands before it do not decide the result
+            is_and = isinstance(node.op, ast.And)
+            acc = None
             for e in node.values:
                 sub = []
                 v = self.typed(e, env, sub, 'bool')
-                if parts and not self.pure_lines(sub):
-                    fail(e, 'operand of and / or that acts on the state or may raise')
-                pre += sub
-                parts.append(v.code)
-            op = ' && ' if isinstance(node.op, ast.And) else ' || '
-            return V('(' + op.join(parts) + ')', 'bool')
+                if acc is None:
+                    pre += sub
+                    acc = v.code
+                elif not sub:
+                    acc = f'({acc} && {v.code})' if is_and else f'({acc} || {v.code})'
+                else:
+                    t = self.fresh()
+                    if is_and:
+                        pre.append(f'do (st, {t}) <- (if {acc} then')
+                        pre += ['    ' + x for x in sub + [f'Ok (st, {v.code})']]
+                        pre.append('  else Ok (st, false));')
+                    else:
+                        pre.append(f'do (st, {t}) <- (if {acc} then Ok (st, true) else')
+                        pre += ['    ' + x for x in sub + [f'Ok (st, {v.code}));']]
+                    acc = t
+            return V(acc, 'bool')
         if isinstance(node, ast.Compare):
             return self.compare(node, env, pre)
         if isinstance(node, ast.IfExp):
@@ -832,12 +845,19 @@ class Translator:
         env2[name] = Var(x, v.ty, 'local', appendable=v.fresh and v.ty in ELEM)
         return [f'let {x} := {v.code} in'], env2
 
-    def freeze_value(self, node, env):
-        """the list denoted by `node` is now held by someone else: a name loses its right to append"""
-        if isinstance(node, ast.Name) and node.id in env and env[node.id].kind in ('param', 'local'):
-            env = dict(env)
-            env[node.id] = env[node.id].frozen()
-        return env
+    def freeze_value(self, node, env, ty=None):
+        """the list value of the expression `node` is now held by someone else (a second name, the clause list, a
+        template ...): every list this function may still append to and that the expression mentions (it may have
+        become an element or an alias of the value) loses that right"""
+        if ty is not None and ty not in ELEM:
+            return env
+        out = env
+        for n in ast.walk(node):
+            if isinstance(n, ast.Name) and n.id in out and out[n.id].kind in ('param', 'local') and out[n.id].appendable:
+                if out is env:
+                    out = dict(env)
+                out[n.id] = out[n.id].frozen()
+        return out
 
     def assign(self, s, env, cont):
         if isinstance(s, ast.Assign):
@@ -864,6 +884,8 @@ class Translator:
                     and len({e.id for e in tgt.elts}) == len(tgt.elts)):
                 fail(s, 'tuple assignment must be <names> = <as many expressions>')
             vals = [self.expr(e, env, pre) for e in val.elts]
+            for e, v in zip(val.elts, vals):
+                env = self.freeze_value(e, env, v.ty)
             lines = list(pre)
             tmps = []
             for v in vals:
@@ -889,6 +911,8 @@ class Translator:
             if self.cur is not None or self.depth != 0 or s is not self.state_decl[name]:
                 fail(s, f'{name} (a closure variable) may only be bound by its one binding statement')
             if var.role == 'memo':
+                if self.factory not in self.closures:
+                    fail(s, 'the factory of the defaultdict is defined after the defaultdict is created')
                 self.inited.add('memo')
                 return ['let st := set_saved st [] in'] + cont(env)
             self.inited.add('cnf')
@@ -906,9 +930,9 @@ class Translator:
                 fail(s, f'annotation says {at}, the value is a {v.ty}')
             if at == 'int' and v.ty == 'nat':
                 v = V(self.as_int(v, s), 'int')
-        env = self.freeze_value(val, env)
-        if isinstance(val, ast.Name):
-            v = V(v.code, v.ty, False)
+        env = self.freeze_value(val, env, v.ty)
+        if not isinstance(val, (ast.List, ast.ListComp, ast.BinOp, ast.Call, ast.Subscript)):
+            v = V(v.code, v.ty, False)      # a name, a conditional expression of names ...: possibly an alias
         ls, env2 = self.bind_local(tgt, name, v, env)
         return pre + ls + cont(env2)
 
@@ -1123,8 +1147,8 @@ class Translator:
         if it.ty not in ELEM:
             fail(s.iter, f'iteration over {it.ty}')
         assigned = self.assigned_in(s.body)
-        if isinstance(s.iter, ast.Name) and s.iter.id in assigned:
-            fail(s, 'loop body writes the list it iterates over')
+        if any(isinstance(n, ast.Name) and n.id in assigned for n in ast.walk(s.iter)):
+            fail(s, 'loop body writes a variable that its iterable mentions')
         carried_names = [n for n in assigned if n in env and env[n].kind in ('param', 'local')]
         x = self.vname(s.target, s.target.id)
         inner = dict(env)
@@ -1306,8 +1330,9 @@ class Translator:
             fail(d, 'closure signature outside grammar')
         for p in a.args:
             ty = self.ann_type(p.annotation)
-            if ty not in ('label', 'int', 'bool', 'ilist', 'labels'):
-                fail(p, 'closure parameter needs an annotation among str / int / Lit / bool / list[int] / list[str]')
+            if ty not in ('label', 'int', 'bool'):
+                # a list parameter could be stored by the callee and mutated by the caller afterwards
+                fail(p, 'closure parameter needs an annotation among str / int / Lit / bool')
             clo.params.append((p.arg, ty))
         if d.returns is not None:
             if isinstance(d.returns, ast.Constant) and d.returns.value is None:
